@@ -37,7 +37,22 @@ def n_layers(spec):
 def weather_frame(spec):
     lo = d(spec["start"]) - dt.timedelta(days=int(spec.get("pad_before", 0)))
     hi = d(spec["end"]) + dt.timedelta(days=int(spec.get("pad_after", 0)))
-    return weather.frame(spec["weather"], lo, hi)
+    w = weather.frame(spec["weather"], lo, hi)
+    gap = spec.get("pad_gap")
+    if gap:
+        # records *outside* the window need not be contiguous (a 365-day source without 29 Feb,
+        # files joined with a hole): drop some days of the padding, never of the window
+        import pandas as pd
+
+        s0, e0 = pd.Timestamp(d(spec["start"])), pd.Timestamp(d(spec["end"]))
+        drop = set()
+        for off in gap.get("before", []):
+            drop.add(s0 - pd.Timedelta(days=int(off)))
+        for off in gap.get("after", []):
+            drop.add(e0 + pd.Timedelta(days=int(off)))
+        drop = {x for x in drop if x < s0 or x > e0}
+        w = w[~w["Date"].isin(list(drop))].reset_index(drop=True)
+    return w
 
 
 def build_soil(s):
@@ -91,6 +106,8 @@ def build(spec, weather_df=None):
                 {"Date": pd.to_datetime([x[0].replace("/", "-") for x in sch]),
                  "Depth": [float(x[1]) for x in sch]}
             ) if sch else pd.DataFrame(columns=["Date", "Depth"])
+        if ikw.pop("SMT_as_array", False) and "SMT" in ikw:
+            ikw["SMT"] = np.array(ikw["SMT"], dtype=float)      # users do pass thresholds as arrays
         kw["irrigation_management"] = IrrigationManagement(irr["method"], **ikw)
     if spec.get("fm") is not None:
         kw["field_management"] = FieldMngt(**spec["fm"])
